@@ -334,7 +334,24 @@ ErrorCode boolean(const Array<Polygon*>& polys1, const Array<Polygon*>& polys2, 
     clpr.AddPaths(paths2, ClipperLib::ptClip, true);
 
     ClipperLib::PolyTree solution;
-    clpr.Execute(ct_operation, solution, ClipperLib::pftNonZero, ClipperLib::pftNonZero);
+    if (ct_operation == ClipperLib::ctXor) {
+        // Clipper's ctXor emits the fragments (A not B) and (B not A), which touch wherever the
+        // boundaries of the operands coincide; it joins such fragments into paths with lobes of
+        // opposite orientation and nests them wrongly (holes returned as outer polygons and
+        // vice versa).  The other three operations do not have that problem, so the symmetric
+        // difference is computed as (A or B) not (A and B).
+        ClipperLib::Paths united, common;
+        clpr.Execute(ClipperLib::ctUnion, united, ClipperLib::pftNonZero, ClipperLib::pftNonZero);
+        clpr.Execute(ClipperLib::ctIntersection, common, ClipperLib::pftNonZero,
+                     ClipperLib::pftNonZero);
+        ClipperLib::Clipper difference;
+        difference.AddPaths(united, ClipperLib::ptSubject, true);
+        difference.AddPaths(common, ClipperLib::ptClip, true);
+        difference.Execute(ClipperLib::ctDifference, solution, ClipperLib::pftNonZero,
+                           ClipperLib::pftNonZero);
+    } else {
+        clpr.Execute(ct_operation, solution, ClipperLib::pftNonZero, ClipperLib::pftNonZero);
+    }
 
     ErrorCode error_code = ErrorCode::NoError;
     tree_to_polygons(solution, scaling, result, error_code);
